@@ -16,3 +16,32 @@ func VerifShellSafeQuote(s string) string {
 func VerifFormatArgs(envs map[string]string, shellCmd string, argv []string) string {
 	return formatArgs(envs, shellCmd, argv)
 }
+
+// VerifNewRemoteJobManager returns a cluster job manager that renders job
+// scripts from the given template text (no job is ever submitted).
+func VerifNewRemoteJobManager(template string, threadEnvs []string) *RemoteJobManager {
+	return &RemoteJobManager{
+		jobMode:              "verif",
+		jobResourcesMappings: map[string]string{},
+		config: jobManagerConfig{
+			jobSettings: &JobManagerSettings{
+				ThreadsPerJob: 1,
+				MemGBPerJob:   1,
+				ThreadEnvs:    threadEnvs,
+			},
+			jobTemplate:      template,
+			threadingEnabled: true,
+		},
+	}
+}
+
+// VerifJobScript exposes jobScript for a job whose metadata and files
+// directories are the given paths.
+func (self *RemoteJobManager) VerifJobScript(shellCmd string, argv []string,
+	envs map[string]string, metadataPath, filesPath, fqname, shellName string,
+	threads, memGB float64) string {
+	md := NewMetadata(fqname, metadataPath)
+	md.curFilesPath = filesPath
+	return self.jobScript(shellCmd, argv, envs, md,
+		&JobResources{Threads: threads, MemGB: memGB}, fqname, shellName)
+}
